@@ -20,7 +20,7 @@ PARAMS = {
     "TLRemoveAt": ("l", "i", "how"), "TLClear": ("l",), "TLNewTree": ("l", "nsarg"), "TLRead": ("l", "srcs"),
     "TLCtorList": ("l", "nsarg"), "TLCtorTrees": ("ts", "nsarg"), "TLMigrate": ("l", "n", "unify"),
     "TLReconstruct": ("l", "unify"), "TLUpdate": ("l",), "TreeMigrate": ("t", "n", "unify"), "TreeClone": ("t", "nsarg"),
-    "TAAdd": ("a", "t"), "TARead": ("a", "srcs"), "CMNewSeq": ("m", "t"), "CMSetItem": ("m", "t"),
+    "TAAdd": ("a", "t"), "TARead": ("a", "srcs"), "CMNewSeq": ("m", "t"), "CMSetItem": ("m", "t"), "CMGetTaxon": ("m", "t"), "CMGetLabel": ("m", "lab"), "CMGetIndex": ("m", "i"),
     "CMMigrate": ("m", "n", "unify"), "CMReconstruct": ("m", "unify"), "CMUpdate": ("m",), "CMFromDict": ("keys", "nsarg"),
     "CMClone": ("m", "nsarg"), "DSRead": ("src", "nsarg"), "DSReadBlocks": ("blocks", "nsarg"), "DSAddList": ("l",), "DSAddMat": ("m",), "DSNewList": ("nsarg",),
     "DSNewMat": ("nsarg",), "DSAttach": ("n",), "DSDetach": (), "DSUnify": ("nsarg",),
@@ -308,6 +308,12 @@ class World(object):
             return (lambda: M[a["m"]].new_sequence(X[a["t"]], ["0", "1"])), "new_sequence"
         if name == "CMSetItem":
             return (lambda: M[a["m"]].__setitem__(X[a["t"]], ["1", "1"])), "setitem"
+        if name == "CMGetTaxon":      # item access, e.g. cm[t].extend(...)
+            return (lambda: (M[a["m"]][X[a["t"]]], None)[1]), "getitem-taxon"
+        if name == "CMGetLabel":
+            return (lambda: (M[a["m"]][a["lab"]], None)[1]), "getitem-label"
+        if name == "CMGetIndex":
+            return (lambda: (M[a["m"]][a["i"]], None)[1]), "getitem-index"
         if name == "CMMigrate":
             return (lambda: M[a["m"]].migrate_taxon_namespace(N[a["n"]], unify_taxa_by_label=a["unify"])), "migrate"
         if name == "CMReconstruct":
